@@ -1,2 +1,261 @@
+"""Forwarding contracts for property_from_data and the composite builders (C05: every record gets the ESCAPED name;
+C01/C08: every inner build receives the caller's roots, so dependants of a failed schema can be removed; C16: the
+literal_enums switch selects the enum builder and nothing else).
+
+The builders are replaced by capturing summaries: what is verified is the call protocol of the function under contract
+(modular), for every shape of schema the dispatch distinguishes.
+"""
+from __future__ import annotations
+
+import z3
+
+from pyvc import core, engine_b
+from pyvc.absdata import GrowSet
+from pyvc.engine_b import Case, Clause, FnContract
+from pyvc.symexec import SBool, SFunc, SList, SObj, SOpaque, SStr, STuple, SV
+
+P = "openapi_python_client.parser.properties"
+
+BUILDERS = ["any:AnyProperty", "boolean:BooleanProperty", "const:ConstProperty", "date:DateProperty", "datetime:DateTimeProperty",
+            "enum_property:EnumProperty", "file:FileProperty", "float:FloatProperty", "int:IntProperty",
+            "list_property:ListProperty", "literal_enum_property:LiteralEnumProperty", "model_property:ModelProperty",
+            "none:NoneProperty", "string:StringProperty", "union:UnionProperty", "uuid:UuidProperty"]
+TAKES_ROOTS = {"ListProperty", "ModelProperty", "UnionProperty", "_property_from_ref", "property_from_data"}
+
+
+def _install_captures(I, calls, skip=()):
+    from openapi_python_client.parser.errors import PropertyError
+    for b in BUILDERS:
+        mod, cls = b.split(":")
+        if cls in skip:
+            continue
+
+        def summ(I2, args, kwargs, cls=cls):
+            calls.append((cls, dict(kwargs), list(args)))
+            if I2.branch_free():
+                res = SOpaque(f"built {cls}", cls=object)
+            else:
+                res = SObj(PropertyError, {"detail": None, "data": None, "header": "", "level": None})
+            if cls in ("EnumProperty", "LiteralEnumProperty", "ListProperty", "ModelProperty", "UnionProperty"):
+                return STuple([res, kwargs.get("schemas")])
+            return res
+        I.contracts[f"{P}.{mod}:{cls}.build"] = summ
+    # NoneProperty is constructed directly (no build) in property_from_data
+    import openapi_python_client.parser.properties.none as none_mod
+
+    def none_ctor(I2, args, kwargs):
+        calls.append(("NoneProperty", dict(kwargs), list(args)))
+        return SOpaque("built NoneProperty", cls=object)
+    I.lib = dict(I.lib)
+    I.lib[none_mod.NoneProperty] = none_ctor
+
+
+def _schema_shapes():
+    """the shapes the dispatch of property_from_data distinguishes (each attribute over its relevant alternatives)"""
+    from openapi_python_client import schema as oai
+    DT = oai.DataType
+    types = [None, DT.BOOLEAN, DT.STRING, DT.NUMBER, DT.INTEGER, DT.NULL, DT.ARRAY, DT.OBJECT, "list"]
+    shapes = []
+    for t in types:
+        for enum in (False, True):
+            for comb in ("none", "allOf-1ref", "anyOf-1ref", "oneOf-2", "allOf-inline"):
+                for const in (False, True):
+                    for props in (False, True):
+                        shapes.append(dict(type=t, enum=enum, comb=comb, const=const, props=props))
+    shapes.append(dict(reference=True))
+    return shapes
+
+
+def _nonempty(o):
+    o.nonempty = True
+    return o
+
+
+def _mk_schema(I, shape, name="data"):
+    from openapi_python_client import schema as oai
+    ref = SObj(oai.Reference, {"ref": SStr(z3.Const(name + "_ref", z3.StringSort()))})
+    if shape.get("reference"):
+        return ref          # the schema position holds a bare $ref
+    sub = SOpaque(name + ".member", cls=oai.Schema)
+    allOf, anyOf, oneOf = SList(), SList(), SList()
+    c = shape["comb"]
+    if c == "allOf-1ref":
+        allOf = SList([ref])
+    elif c == "anyOf-1ref":
+        anyOf = SList([ref])
+    elif c == "oneOf-2":
+        oneOf = SList([sub, ref])
+    elif c == "allOf-inline":
+        allOf = SList([sub])
+    t = shape["type"]
+    if t == "list":
+        t = SList([oai.DataType.STRING, oai.DataType.NULL])
+    fmt_choices = [None, "date", "date-time", "binary", "uuid", "other"]
+    k = 0
+    if shape["type"] == oai.DataType.STRING and not shape["enum"] and not shape["const"] and c in ("none", "allOf-inline"):
+        while k < len(fmt_choices) - 1 and not I.branch_free():
+            k += 1
+    attrs = {
+        "type": t, "enum": SList([SV(z3.Const("enum0", I.Z.JV))]) if shape["enum"] else None,
+        "allOf": allOf, "anyOf": anyOf, "oneOf": oneOf,
+        "const": SV(z3.Const("const", I.Z.JV)) if shape["const"] else None,
+        "properties": _nonempty(SOpaque("properties", cls=dict)) if shape["props"] else None,
+        "schema_format": fmt_choices[k], "default": SV(z3.Const("default", I.Z.JV)),
+        "description": SOpaque("description"), "example": SOpaque("example"), "title": None,
+    }
+    if shape["const"]:
+        I.assume(z3.Not(I.Z.rec["none"](attrs["const"].t)))
+    return SOpaque(name, attrs=attrs, cls=oai.Schema)
+
+
+def property_from_data_contract(shape, idx):
+    def make(I):
+        import openapi_python_client.parser.properties as props
+        calls = []
+        _install_captures(I, calls)
+
+        def from_ref(I2, args, kwargs):
+            calls.append(("_property_from_ref", dict(kwargs), list(args)))
+            return STuple([SOpaque("prop-from-ref", cls=object), kwargs.get("schemas")])
+        I.contracts[f"{P}:_property_from_ref"] = from_ref
+        data = _mk_schema(I, shape)
+        name = SStr(z3.Const("name", z3.StringSort()))
+        roots = GrowSet("roots") if I.branch_free() else None
+        config = SOpaque("config", attrs={"field_prefix": SStr(z3.Const("field_prefix", z3.StringSort())),
+                                          "literal_enums": SBool(z3.Const("literal_enums", z3.BoolSort()))})
+        schemas = SOpaque("schemas")
+        kw = dict(name=name, required=SBool(z3.Const("required", z3.BoolSort())), data=data, schemas=schemas,
+                  parent_name=SStr(z3.Const("parent_name", z3.StringSort())), config=config,
+                  process_properties=SBool(z3.Const("process_properties", z3.BoolSort())))
+        if roots is not None:
+            kw["roots"] = roots
+        return SFunc("pyfunc", props.property_from_data), [], kw, {"calls": calls, "name": name, "roots": roots, "config": config,
+                                                                   "schemas": schemas}
+
+    def escaped_name(ctx):
+        I = ctx.I
+        calls = ctx.inputs["calls"]
+        import openapi_python_client.utils as U
+        want = I.call_pyfunc(U.remove_string_escapes, [ctx.inputs["name"]], {})
+        cs = []
+        for cls, kw, args in calls:
+            if "name" not in kw:
+                return False
+            e = I.py_eq(kw["name"], want)
+            if e is False:
+                return False
+            if e is not True:
+                cs.append(e)
+        if not calls:
+            return False
+        return z3.And(*cs) if cs else True
+
+    def one_builder(ctx):
+        return len(ctx.inputs["calls"]) == 1
+
+    def roots_forwarded(ctx):
+        roots = ctx.inputs["roots"]
+        conds = []
+        for cls, kw, args in ctx.inputs["calls"]:
+            if cls in TAKES_ROOTS:
+                got = kw.get("roots")
+                if roots is None:
+                    if got is None:
+                        return False
+                    continue
+                if got is roots:
+                    continue
+                # `roots or set()`: an EMPTY set may be replaced by a fresh empty set
+                from pyvc.symexec import SSet
+                if isinstance(got, SSet) and not got.items and not getattr(got, "absorbed", None):
+                    conds.append(z3.Not(roots.nonempty))
+                    continue
+                return False
+        return z3.And(*conds) if conds else True
+
+    def enum_style(ctx):
+        calls = ctx.inputs["calls"]
+        flag = ctx.inputs["config"].attrs["literal_enums"].t
+        for cls, kw, args in calls:
+            if cls == "LiteralEnumProperty":
+                return flag
+            if cls == "EnumProperty":
+                return z3.Not(flag)
+        return True
+
+    clauses = [
+        Clause("one-builder", one_builder, statement="every path hands the schema to exactly one builder", props=["C02", "C05"]),
+        Clause("name-escaped", escaped_name, statement="the name given to the builder is remove_string_escapes(name) on every path "
+                                                       "(incl. direct and single-member $ref)", props=["C05"]),
+        Clause("roots-forwarded", roots_forwarded, statement="list/model/union builders and _property_from_ref receive the "
+                                                             "caller's roots (a set even when none was given)", props=["C01", "C08"]),
+        Clause("enum-style-by-config", enum_style, statement="EnumProperty is chosen iff not config.literal_enums", props=["C16"]),
+    ]
+    return FnContract(f"{P}:property_from_data", [Case(f"shape{idx}", make, clauses, raises=(), props=["C05", "C01", "C08", "C16", "C02"])])
+
+
+def inner_forwarding_contract(which):
+    """ListProperty.build / UnionProperty.build: the inner property_from_data calls get roots"""
+    modname = {"ListProperty": "list_property", "UnionProperty": "union"}[which]
+
+    def make(I):
+        from openapi_python_client import schema as oai
+        import importlib
+        calls = []
+        cls = getattr(importlib.import_module(f"{P}.{modname}"), which)
+
+        def pfd(I2, args, kwargs):
+            calls.append(("property_from_data", dict(kwargs), list(args)))
+            from openapi_python_client.parser.errors import PropertyError
+            if I2.branch_free():
+                res = SOpaque("inner", cls=object)
+            else:
+                res = SObj(PropertyError, {"detail": None, "data": None, "header": "", "level": None})
+            return STuple([res, kwargs.get("schemas")])
+        I.contracts[f"{P}:property_from_data"] = pfd
+        roots = GrowSet("roots")
+        item = SOpaque("items", cls=oai.Schema)
+        if which == "ListProperty":
+            data = SOpaque("data", cls=oai.Schema, attrs={"items": item, "prefixItems": SList(), "default": None, "description": None,
+                                                           "example": None})
+        else:
+            data = SOpaque("data", cls=oai.Schema, attrs={"type": None, "anyOf": SList([item]), "oneOf": SList([SOpaque("m2", cls=oai.Schema)]),
+                                                           "default": None, "description": None, "example": None})
+        kw = dict(data=data, name=SStr(z3.Const("name", z3.StringSort())), required=SBool(z3.Const("required", z3.BoolSort())),
+                  schemas=SOpaque("schemas"), parent_name=SStr(z3.Const("parent", z3.StringSort())),
+                  config=SOpaque("config", attrs={"field_prefix": SStr(z3.Const("fp", z3.StringSort()))}), roots=roots)
+        if which == "ListProperty":
+            kw["process_properties"] = SBool(z3.Const("process_properties", z3.BoolSort()))
+        return SFunc("pyfunc", cls.build.__func__, self_val=cls), [], kw, {"calls": calls, "roots": roots}
+
+    def forwarded(ctx):
+        calls = ctx.inputs["calls"]
+        if not calls:
+            return False
+        return all(kw.get("roots") is ctx.inputs["roots"] for _, kw, _ in calls)
+    cl = Clause("inner-roots-forwarded", forwarded, any_outcome=True,
+                statement=f"every inner property_from_data call of {which}.build receives the caller's roots", props=["C01", "C08"])
+    return FnContract(f"{P}.{modname}:{which}.build", [Case("generic", make, [cl], raises=(Exception,), props=["C01", "C08"])])
+
+
 def discharge(rep, kf, prop, tier, seed):
-    return
+    shapes = _schema_shapes()
+    tasks = []
+    chunk = 24
+    for i in range(0, len(shapes), chunk):
+        def task(lo=i):
+            r = core.Report(prop, tier, seed)
+            cs = [property_from_data_contract(s, lo + j) for j, s in enumerate(shapes[lo:lo + chunk])]
+            engine_b.discharge(r, kf, cs, prop, tier, seed)
+            return r
+        tasks.append(task)
+
+    def inner():
+        r = core.Report(prop, tier, seed)
+        engine_b.discharge(r, kf, [inner_forwarding_contract("ListProperty"), inner_forwarding_contract("UnionProperty")], prop, tier, seed)
+        return r
+    if prop in ("C01", "C08"):
+        tasks.append(inner)
+    for r in core.run_parallel(tasks):
+        r.obligations = [o for o in r.obligations if prop in o.props or o.id.endswith("no-exception-escapes")]
+        rep.merge(r)
